@@ -245,14 +245,13 @@ def check_child_cursors(ctx, where, node, label, ci=None):
     return n
 
 
-def check_file_backed_raw(ctx):
+def check_file_backed_raw(ctx, rule='R14-file-backed-slice'):
     """Round 5.  (g) the file-backed stand-in for bytes (util.SeekableFile) answers raw[a:b] with
     exactly the bytes a..b of the file, whatever was read before: either a seek to a and a read of
     b - a, or bytes served from a remembered block under a guard that relates the END of the request
     to the block.  A block chosen by the start alone truncates a request that crosses its end, so
     the same packet parses differently depending on where it lies in the file"""
     repo = ctx.repo
-    rule = 'R14-file-backed-slice'
     if not repo.has_cls('SeekableFile'):
         return
     ci = repo.cls('SeekableFile')
@@ -307,6 +306,12 @@ def check_file_backed_raw(ctx):
                 ctx.violation(rule, fi, label + ' -> %s' % short_r, 'the bytes come from the remembered block self.%s, chosen by where the request starts; nothing on this path compares the end of the request with the end of the block, so a request that crosses it is silently cut short' % blk, fi.node.lineno, clause='g', witness=True)
             else:
                 ctx.undecided(rule, fi, label + ' -> %s' % short_r, 'bytes served from a remembered block: its bookkeeping is not analysed', fi.node.lineno, clause='g')
+            continue
+        # a buffer sized to the request, filled by readinto() whose count is thrown away
+        into = [e for e in p.effects if e.kind == 'call' and isinstance(e.call.func, ast.Attribute) and e.call.func.attr == 'readinto']
+        presized = any(isinstance(x, ast.Call) and isinstance(x.func, ast.Name) and x.func.id == 'bytearray' and x.args and not isinstance(x.args[0], (ast.Constant, ast.List, ast.Tuple)) for x in ast.walk(r))
+        if into and presized and not any(canon(e.call) in canon(r) for e in into):
+            ctx.violation(rule, fi, label + ' -> %s' % short_r, 'the slice is a buffer of the requested length filled by readinto() whose count is ignored: past the end of the file it is padded with zero bytes, so a truncated file parses (with made-up values) instead of failing', fi.node.lineno, clause='g', witness=True)
             continue
         ctx.undecided(rule, fi, label + ' -> %s' % short_r, 'not the seek-then-read form', fi.node.lineno, clause='g')
     if not n:
